@@ -103,7 +103,8 @@ class KernelSim(WorldBase):
             return evs
         if self.prop == "C15":
             flows = K.all_flows(case, g, tilings=g.random() < 0.3)
-            tflow = g.choice(flows)
+            tflow = dict(g.choice(flows))
+            tflow["body"] = {"mul": g.choice(["pp", "pp", "sp", "ps"]), "acc": g.choice(["iadd", "iadd", "add_assign", "radd"])}
             target = self._gen_session(g, case, tflow, role="target", prefix="tgt")
             evs.append(["session", dict(target, role="first")])
             evs.append(["session", dict(target, role="off")])
@@ -539,10 +540,24 @@ class KernelSim(WorldBase):
 
     # ---- C16
     def _drain(self, reg, batches):
+        got = {}
         for rank, typ, cons in reg:
             if cons and Metrics.isCollecting():
                 b = Metrics.consumeTrace(rank, typ)
-                batches.setdefault((rank, typ), []).extend(b)
+                # what was delivered, as delivered (the consumer below is free to do what it likes with its rows)
+                batches.setdefault((rank, typ), []).extend([list(row) for row in b])
+                got[(rank, typ)] = b
+        # the consumer: the intersection models, fed pairwise with what was just drained
+        for (rank, typ), b in got.items():
+            if typ.startswith("intersect_") and int(typ.split("_")[1]) % 2 == 0:
+                other = got.get((rank, f"intersect_{int(typ.split('_')[1]) + 1}"))
+                if other is not None:
+                    for cls_ in (TwoFingerIntersector, SkipAheadIntersector):
+                        try:
+                            cls_().addTraces(b, other)
+                        except Exception:
+                            pass
+                    self.probe("consumer_fed_intersector")
 
     def _judge_c16(self, s, out, expect, batches):
         if self.prop != "C16":
